@@ -410,6 +410,11 @@ func addExecveRecord(execve *auparse.AuditMessage, event *Event) {
 			errors.New("argc key not found in EXECVE message"))
 		return
 	}
+	if _, found := event.Data["argc"]; found {
+		// Another record already provided an argc value that is replaced here.
+		event.Warnings = append(event.Warnings, fmt.Errorf(
+			"duplicate key (%v) from %v message", "argc", execve.RecordType))
+	}
 	event.Data["argc"] = argc
 
 	count, err := strconv.ParseUint(argc, 10, 32)
